@@ -1,5 +1,6 @@
 // wrappers: var_opt_sketch<uint32_t> in its exact (warm-up) phase (C16)
 #include "var_opt_sketch.hpp"
+#include "var_opt_union.hpp"
 #include "../wrappers/serde_common.hpp"
 using namespace datasketches;
 typedef var_opt_sketch<uint32_t> VO;
@@ -11,3 +12,14 @@ WRAP uint32_t w_vo_k(const VO* s) { return s->get_k(); }
 WRAP uint32_t w_vo_num_samples(const VO* s) { return s->get_num_samples(); }
 WRAP uint8_t w_vo_is_empty(const VO* s) { return s->is_empty(); }
 WRAP int32_t w_vo_items(const VO* s, uint32_t* items, uint64_t* wbits, uint32_t cap) { try { uint32_t n = 0; for (auto p : *s) { if (n < cap) { items[n] = p.first; wbits[n] = dbits(p.second); } ++n; } return (int32_t)n; } catch (...) { return -1; } }
+// unit level: var_opt_union threshold bookkeeping (resolve_tau keeps the largest input threshold as numerator / denominator)
+typedef var_opt_union<uint32_t> VOU;
+WRAP VOU* w_vou_new(uint32_t max_k) { try { return new VOU(max_k); } catch (...) { return nullptr; } }
+WRAP void w_vou_delete(VOU* u) { delete u; }
+WRAP void w_vou_set_outer(VOU* u, uint64_t numer_bits, uint64_t denom) { u->outer_tau_numer_ = bitsd(numer_bits); u->outer_tau_denom_ = denom; }
+WRAP uint64_t w_vou_numer(const VOU* u) { return dbits(u->outer_tau_numer_); }
+WRAP uint64_t w_vou_denom(const VOU* u) { return u->outer_tau_denom_; }
+WRAP uint64_t w_vou_outer_tau(const VOU* u) { return dbits(u->get_outer_tau()); }
+WRAP void w_vo_set_r(VO* s, uint32_t r, uint64_t total_wt_r_bits) { s->r_ = r; s->total_wt_r_ = bitsd(total_wt_r_bits); }
+WRAP uint64_t w_vo_tau(const VO* s) { return dbits(s->get_tau()); }
+WRAP int w_vou_resolve_tau(VOU* u, const VO* s) { try { u->resolve_tau(*s); return 0; } catch (...) { return 1; } }
